@@ -4,11 +4,10 @@ Cases: {"kind": "ctor", "mode", "c": {rep,y,a,b,hh,mi,ss,zh,zm}}
        {"kind": "text", ...}  (a C07 case whose generation record may carry out-of-range fields)
        {"kind": "fuzz", "mode", "parser": "tp"|"dur"|"rec", "cfg": n, "text": str}"""
 import random
-import signal
 
 from harness import gen, render
 from harness import refcal as R
-from harness.common import MEANING, Duration, TimePoint, TimeRecurrence, outcome, proj_tp, set_mode
+from harness.common import MEANING, Duration, TimePoint, TimeRecurrence, cpu_watchdog, outcome, proj_tp, set_mode
 from harness.drivers import c07
 from metomi.isodatetime.parsers import DurationParser, TimePointParser, TimeRecurrenceParser
 
@@ -59,17 +58,13 @@ def run_case(case, rec, cid):
     if k == "fuzz":
         text = case["text"]
         which = case["parser"]
-        signal.signal(signal.SIGALRM, _alarm)
-        signal.alarm(20 if which == "rec" else 5)
-        try:
+        with cpu_watchdog(20 if which == "rec" else 5, OpTimeout):
             if which == "tp":
                 st, v = outcome(lambda: _TPP[case["cfg"] % len(_TPP)].parse(text))
             elif which == "dur":
                 st, v = outcome(lambda: _DP.parse(text))
             else:
                 st, v = outcome(lambda: _RP[case["cfg"] % len(_RP)].parse(text))
-        finally:
-            signal.alarm(0)
         q, isq = proj_tp(None), False
         if st == "ok":
             out = "obj"
